@@ -117,8 +117,10 @@ class NumericData(Data, ABC):
             values = np.ravel(values)
             warn("Input 'values' converted to a 1D array.")
 
-        # change nan values to nan_value
-        values[np.isnan(values)] = self.nan_value
+        # change nan values to nan_value (on a copy: the array belongs to the caller)
+        if np.any(np.isnan(values)):
+            values = values.copy()
+            values[np.isnan(values)] = self.nan_value
 
         # check the length of the values
         values = self.format_length(values)
